@@ -136,9 +136,17 @@ class ParallelSourcePlugin(Plugin):
         return self.sub_plugins[self.start_from].is_ready(chunk_i)
 
     def do_compute(self, chunk_i=None, **kwargs):
-        results = kwargs
+        # The inputs (if any) are those of the plugin we start from. Like for
+        # any plugin they arrive merged per data kind, not per data type.
+        results = dict()
+        start_plugin = self.sub_plugins[self.start_from]
+        r = start_plugin.do_compute(chunk_i=chunk_i, **kwargs)
+        if start_plugin.multi_output:
+            results.update(r)
+        else:
+            results[self.start_from] = r
 
-        # Run the different plugin computations
+        # Run the other plugin computations
         while True:
             for output_name, p in self.sub_plugins.items():
                 if output_name in results:
